@@ -29,16 +29,41 @@ import (
 
 // ---- store wrapper: every call is a plain scheduling point ----
 
-type pstore struct{ quickfix.MessageStore }
+type pstore struct {
+	quickfix.MessageStore
+	x *exec
+}
+
+// storeOp: what the session did to the store, in the order it happened (recorded at the instant of the call).
+type storeOp struct {
+	kind string // save, incr, reset
+	n    int    // number persisted (save) / consumed (incr)
+	next int    // the store's next outbound number at that instant
+}
+
+func (p pstore) op(kind string, n int) {
+	p.x.mu.Lock()
+	if p.x.live {
+		p.x.ops = append(p.x.ops, storeOp{kind, n, p.MessageStore.NextSenderMsgSeqNum()})
+	}
+	p.x.mu.Unlock()
+}
+func (p pstore) Reset() error {
+	vsync.Point()
+	p.op("reset", 0)
+	return p.MessageStore.Reset()
+}
 
 func (p pstore) NextSenderMsgSeqNum() int { vsync.Point(); return p.MessageStore.NextSenderMsgSeqNum() }
 func (p pstore) NextTargetMsgSeqNum() int { return p.MessageStore.NextTargetMsgSeqNum() }
 func (p pstore) SaveMessageAndIncrNextSenderMsgSeqNum(n int, b []byte) error {
 	vsync.Point()
+	p.op("save", n)
 	return p.MessageStore.SaveMessageAndIncrNextSenderMsgSeqNum(n, b)
 }
 func (p pstore) IncrNextSenderMsgSeqNum() error {
 	vsync.Point()
+	p.op("incr", p.MessageStore.NextSenderMsgSeqNum())
 	return p.MessageStore.IncrNextSenderMsgSeqNum()
 }
 func (p pstore) IterateMessages(b, e int, cb func([]byte) error) error {
@@ -52,6 +77,7 @@ func (p pstore) IterateMessages(b, e int, cb func([]byte) error) error {
 type pfactory struct {
 	inner quickfix.MessageStoreFactory
 	base  *quickfix.MessageStore
+	x     *exec
 }
 
 func (f pfactory) Create(id quickfix.SessionID) (quickfix.MessageStore, error) {
@@ -60,7 +86,7 @@ func (f pfactory) Create(id quickfix.SessionID) (quickfix.MessageStore, error) {
 		return nil, err
 	}
 	*f.base = st
-	return pstore{st}, nil
+	return pstore{st, f.x}, nil
 }
 
 // ---- application: records numbers assigned to engine-generated messages ----
@@ -94,6 +120,7 @@ type wireRec struct {
 	typ     string
 	possDup bool
 	stored  bool // at the instant of reception the store returned exactly these bytes under seq
+	epoch   int  // store resets seen before this transmission
 	raw     []byte
 }
 
@@ -111,6 +138,7 @@ type exec struct {
 	startS        int
 	persist       bool
 	dir           string
+	ops           []storeOp
 }
 
 var storeDir string // non-empty: file store under this directory
@@ -121,6 +149,7 @@ type scenario struct {
 	session   func(x *exec)
 	history   []string // message types sent before the scenario starts (after the Logon), built through the real path
 	noPersist bool
+	settings  map[string]string // extra session settings (reset options)
 }
 
 func inbound(x *exec, typ string, body ...fixscan.Field) {
@@ -139,6 +168,9 @@ func setup(sc scenario) *exec {
 	if sc.noPersist {
 		ss.Set(config.PersistMessages, "N")
 	}
+	for k, v := range sc.settings {
+		ss.Set(k, v)
+	}
 	var inner quickfix.MessageStoreFactory = quickfix.NewMemoryStoreFactory()
 	if storeDir != "" {
 		d, err := os.MkdirTemp(storeDir, "x")
@@ -156,7 +188,7 @@ func setup(sc scenario) *exec {
 		gs.AddSession(s2)
 		inner = filestore.NewStoreFactory(gs)
 	}
-	vs, err := quickfix.VerifNewSession(false, id, pfactory{inner, &x.base}, ss, quickfix.NewNullLogFactory(), &app{x})
+	vs, err := quickfix.VerifNewSession(false, id, pfactory{inner, &x.base, x}, ss, quickfix.NewNullLogFactory(), &app{x})
 	if err != nil {
 		panic(err)
 	}
@@ -309,6 +341,11 @@ func runWith(sc scenario, prefix []int, free bool) (res result) {
 				rec.stored = true
 			}
 			x.mu.Lock()
+			for _, o := range x.ops {
+				if o.kind == "reset" {
+					rec.epoch++
+				}
+			}
 			x.wire = append(x.wire, rec)
 			x.mu.Unlock()
 		}
@@ -348,6 +385,24 @@ func check(sc scenario, r result) (rule, what string) {
 	if len(x.sendErrs) > 0 {
 		return "C02/send-error", strings.Join(x.sendErrs, "; ")
 	}
+	// R8: whatever is persisted / consumed carries the store's next unused number at that instant; after a reset the
+	// numbering restarts at 1 (checked on the store's own order of events, which is the order of the epochs)
+	resets := 0
+	expect := x.startS
+	var saved []int
+	for _, o := range x.ops {
+		switch o.kind {
+		case "reset":
+			resets++
+			expect = 1
+		case "save", "incr":
+			if o.n != o.next || o.n != expect {
+				return "C02/R8-number-not-the-next-unused", fmt.Sprintf("number %d was persisted when the store's next outbound number was %d (expected %d in this epoch; %d resets before it); store operations: %v", o.n, o.next, expect, resets, opList(x.ops))
+			}
+			expect++
+			saved = append(saved, o.n)
+		}
+	}
 	// R1: numbers handed out (application returns + engine-generated) are startS, startS+1, ... without gap or repeat
 	var all []int
 	for _, v := range x.assignedApp {
@@ -355,6 +410,29 @@ func check(sc scenario, r result) (rule, what string) {
 	}
 	all = append(all, x.assignedAdmin...)
 	sort.Ints(all)
+	if resets > 0 {
+		// with a reset in the execution the numbers handed out are exactly those the store saw, epoch by epoch
+		sv := append([]int{}, saved...)
+		sort.Ints(sv)
+		if fmt.Sprint(sv) != fmt.Sprint(all) {
+			return "C02/R1-numbering-across-reset", fmt.Sprintf("numbers handed out %v, numbers persisted %v (store operations %v)", all, sv, opList(x.ops))
+		}
+		if got := x.base.NextSenderMsgSeqNum(); got != expect {
+			return "C02/R5-next-sender", fmt.Sprintf("NextSenderMsgSeqNum %d, expected %d after %v", got, expect, opList(x.ops))
+		}
+		// wire: increasing inside an epoch
+		lastSeq, lastEpoch := 0, -1
+		for _, w := range x.wire {
+			if w.possDup {
+				continue
+			}
+			if w.epoch == lastEpoch && w.seq <= lastSeq {
+				return "C02/R2-wire-order", fmt.Sprintf("first-time transmissions out of order inside one epoch: %v", wireSeqs(x.wire))
+			}
+			lastSeq, lastEpoch = w.seq, w.epoch
+		}
+		return "", ""
+	}
 	for i, n := range all {
 		if n != x.startS+i {
 			kind := "gap"
@@ -415,6 +493,18 @@ func check(sc scenario, r result) (rule, what string) {
 	return "", ""
 }
 
+func opList(ops []storeOp) []string {
+	var o []string
+	for _, p := range ops {
+		if p.kind == "reset" {
+			o = append(o, "reset")
+		} else {
+			o = append(o, fmt.Sprintf("%s(%d)", p.kind, p.n))
+		}
+	}
+	return o
+}
+
 func wireSeqs(w []wireRec) []string {
 	var o []string
 	for _, r := range w {
@@ -466,6 +556,15 @@ var scenarios = []scenario{
 	{name: "S6-three-senders", senders: []int{1, 1, 1}, session: func(x *exec) {}},
 	{name: "S7-resend-no-persist", senders: []int{1}, history: []string{"D", "D"}, noPersist: true, session: func(x *exec) {
 		inbound(x, "2", fixscan.Field{Tag: 7, Value: "1"}, fixscan.Field{Tag: 16, Value: "0"})
+	}},
+	{name: "S9-reset-on-logout", senders: []int{1, 1}, settings: map[string]string{config.ResetOnLogout: "Y"}, session: func(x *exec) {
+		inbound(x, "5")
+	}},
+	{name: "S10-reset-on-disconnect", senders: []int{2}, settings: map[string]string{config.ResetOnDisconnect: "Y"}, session: func(x *exec) {
+		if _, ok := vsync.TryRecv(x.vs.MessageEventChan()); ok {
+			x.vs.SendAppMessages()
+		}
+		x.vs.Disconnected()
 	}},
 	{name: "S8-resend-trailing-admin", senders: []int{1}, history: []string{"D", "0", "0"}, session: func(x *exec) {
 		inbound(x, "2", fixscan.Field{Tag: 7, Value: "1"}, fixscan.Field{Tag: 16, Value: "0"})
